@@ -233,6 +233,13 @@ func Main[C any](s Spec[C], args []string) int {
 	if *replay != "" {
 		return doReplay(s, *replay)
 	}
+	if os.Getenv("VERIF_COUNT_ONLY") != "" {
+		// sizing aid: how many cases the generator emits for the tier (nothing is run, no evidence is written)
+		n := 0
+		s.Gen(tier, func(C) { n++ })
+		fmt.Printf("%s %s: generator emits %d cases\n", s.ID, tier, n)
+		return 0
+	}
 	seed, _ := strconv.ParseInt(os.Getenv("VERIF_SEED"), 10, 64)
 	nw := *workers
 	if v, err := strconv.Atoi(os.Getenv("VERIF_WORKERS")); err == nil && v > 0 {
